@@ -256,13 +256,19 @@ func physicalLines(text []byte) []string {
 	return out
 }
 
-// lateMultibyte reports whether the text's first non-ASCII rune is not
-// completely inside the first 1024 bytes (the window ach.NewReader sniffs).
+// lateMultibyte reports whether the charset sniffing of ach.NewReader misses
+// the text's first non-ASCII rune: charset.DetermineEncoding looks at the first
+// 1024 bytes and drops the last rune of that window if it is a multi-byte one,
+// so the rune must end strictly before the window does.
 func lateMultibyte(text []byte) bool {
+	w := len(text)
+	if w > 1024 {
+		w = 1024
+	}
 	for i := 0; i < len(text); i++ {
 		if text[i] >= 0x80 {
 			_, n := utf8.DecodeRune(text[i:])
-			return i+n > 1024
+			return i+n >= w
 		}
 	}
 	return false
@@ -300,6 +306,7 @@ const (
 	tagEdge   = "unicode-space-at-field-edge"
 	tagCompID = "multibyte-company-identification-in-batch-control"
 	tagIATHdr = "multibyte-before-column-50-of-iat-batch-header"
+	tagNeg    = "negative-number-in-numeric-field"
 )
 
 func recordTag(r rec) string {
@@ -308,9 +315,12 @@ func recordTag(r rec) string {
 		return ""
 	}
 	v = v.Elem()
-	edge := false
+	edge, neg := false, false
 	for i := 0; i < v.NumField(); i++ {
 		sf := v.Type().Field(i)
+		if sf.IsExported() && sf.Type.Kind() == reflect.Int && v.Field(i).Int() < 0 {
+			neg = true
+		}
 		if !sf.IsExported() || sf.Type.Kind() != reflect.String || sf.Name == "ID" {
 			continue
 		}
@@ -326,6 +336,9 @@ func recordTag(r rec) string {
 		if rs := []rune(r.s); len(rs) >= 50 && hasMB(string(rs[:50])) {
 			return tagIATHdr
 		}
+	}
+	if neg {
+		return tagNeg
 	}
 	if edge {
 		return tagEdge
